@@ -145,6 +145,18 @@ def corpus(tier):
     ]
     for m in misc:
         yield "misc", "", m
+    # module objects: constructors (every arity), methods, object arguments, chains, objects in containers and function results
+    modules = [
+        'import utf8; u = utf8("ab"); v = utf8(u); w = u.concat(v); print u.count() v.string() utf8("x").append(65).string() u.insert(1, v) u.string();',
+        'import utf8; u = utf8(); print u.empty() u.count(); u.append("xy").append(0x41); print u.string() u.substr(1) u.substr(0, 1) u.at(0);',
+        'import csv; c = csv(","); print c.serialize(tup("a", 1, 2.5)); t = tab(0, ""); b = c.deserialize("x,y", t); print b t.count();',
+        'import utf8; function mk(s:string) return utf8 is begin return utf8(s); end; print mk("q").concat(mk("r")).string() (mk("a")).count();',
+        'import utf8; t = tab(1, utf8("a")); forall e in t loop print e.toupper().string(); end loop; r = tup(utf8("z"), 1); print r@1.string() t.at(0).count();',
+        'import utf8; o:utf8; print isnull(o); o = utf8("k"); print o.string(); if o.count() == 1 then print (o.append("l")).rawsize(); end if;',
+        'import file; f = file(); print f.isopen() f.separator().count();',
+    ]
+    for m in modules:
+        yield "module", "", m
     # loop headers: every order with bounds in both directions (the order keyword matters only for some bounds)
     for o in ("", "asc", "desc"):
         for (b, e) in ((1, 3), (3, 1), (2, 2), (0, -1)):
